@@ -3,9 +3,10 @@ C09 — NSEC3 denial of existence: soundness of `verify_nsec3` (model `Model/Nse
 `Spec/Denial3.lean`, for all names, all record lists, all zone views and all hash functions.
 
 Standing hypothesis on the encoder: `EncOrd enc` — comparing two encoded hashes as `Label`s gives the
-byte-wise order of the hashes (base32hex is order preserving; sampled for the concrete encoder by the
-harness, see `checks/C09.json`).  No hypothesis on `H`; collision-freeness is assumed only where a
-*matching* record is used (`NoCollisionAt`), never for the covering (non-existence) arguments.
+byte-wise order of the hashes; it is *proved* for the concrete base32hex encoder in
+`Proofs/C09Base32.lean`, and `Proofs/C09Main.lean` restates the property theorems for it.  On `H` only
+`HashWF` (values are octet strings); collision-freeness is assumed only where a *matching* record is
+used (`NoCollisionAt`), never for the covering (non-existence) arguments.
 
 Every theorem is stated for an arbitrary combination of repairs `fx`; the hypotheses of the form
 `fx.wrap = true ∨ NoWrap …` are the explicit decidable side conditions the proof forces for the code
